@@ -1,3 +1,4 @@
+\* a zero signature per (member, step) of one slot through the whole pipeline (batch errors: MC_SyncCommittee_err.cfg)
 SPECIFICATION Spec
 CONSTANTS
   SlotsPerEpoch = 2
@@ -9,11 +10,13 @@ CONSTANTS
   IndexSets = {{0}, {1, 5}}
   Sizes = {8}
   SubnetCounts = {4}
-  Targets = {1, 2}
-  Roots = {1, 2}
+  Targets = {1}
+  Roots = {1}
   HVals = {0, 1}
   HMod = 2
   MaxSched = 1
+  FaultKinds = {"sel", "root", "cp"}
+  Deviation = "none"
   MaxFired = 1
 INVARIANTS TypeOK EverySlotOfWindow OnlySlotsOfWindow JobOrder SignedOverObtainedRoot MembersIndependent AggregatorRuleExact
 CHECK_DEADLOCK FALSE
